@@ -112,11 +112,16 @@ func cmdCheck(args []string) {
 	perFunc := map[string]int{}
 	var underContract []map[string]interface{}
 	for _, k := range keys {
-		c := e.verifyFunc(k)
+		c := e.verifyKey(k)
 		con := e.spec.Contracts[k]
-		rec := map[string]interface{}{"function": k, "clauses": len(con.Clauses), "pos": e.posStr(e.funcs[k].Pos())}
+		fk := k
+		if strings.HasPrefix(k, "body:") {
+			fk = strings.TrimPrefix(k, "body:")
+			con = e.spec.Bodies[fk]
+		}
+		rec := map[string]interface{}{"function": k, "clauses": len(con.Clauses), "pos": e.posStr(e.funcs[fk].Pos())}
 		if c.limit != "" {
-			limits = append(limits, fmt.Sprintf("%s: %s", k, c.limit))
+			limits = append(limits, fmt.Sprintf("%s: %s", fk, c.limit))
 			rec["engine_limit"] = c.limit
 			underContract = append(underContract, rec)
 			continue
@@ -433,6 +438,7 @@ func (e *Engine) assumptions() []string {
 		"iterator methods (eachGroup, eachCommand, eachOption, eachActiveGroup) called with a closure are loops over a ghost sequence that is a function of the receiver; what the sequence holds is assumed (axioms eg_nonempty, eag_elem, chain_*); the bodies of eachGroup, eachCommand, eachActiveGroup and eachOption are verified against the shape of their walk (own items to the callback once each, one recursion per child / into the active subcommand), and the link between a body's callback calls and the ghost sequence is not mechanised",
 		"range over a Go map runs over an arbitrary ghost key order (distinct keys, all of the domain); entries of the parser's tables under a present key are assumed non-nil (wf nonnil-elements)",
 		"package-level functions of strings, strconv, unicode, unicode/utf8, math, bytes without an assumed contract are uninterpreted pure functions of their arguments",
+		"the tag accessors multiTag.Get / GetMany are assumed pure functions for their callers; their bodies are verified separately (body-only contracts) against the cache, and multiTag.cached is assumed to return one and the same non-nil map with a non-empty value list under every key",
 		"package functions without a contract that are loop-free, non-recursive and take no address of a local are executed inline at their call sites; any other call of a function without contract is an engine limit",
 		"termination is proved for loops with a decreases clause only; recursion (convert, convertToString, groupByName, the man-page walk, scanStruct) is not shown to terminate",
 		"solver budgets are CPU seconds per obligation and back end; an obligation counts as discharged only on an unsat answer; cover obligations (vacuity guards) that no solver decides within 3 s are recorded as undecided-cover and not counted as refuted",
